@@ -944,6 +944,81 @@ pub fn c13_directory_level(tier: Tier) -> DirLevel {
             }
         }
     }
+    // ---- order of the configured patterns, all 30 patterns: on a directory of files in which every pattern has
+    //      findings and many lines are findings of several patterns at once, every pair of patterns of a category
+    //      in both orders, and the full list in its documented order, reversed, rotated by every offset and with
+    //      every two positions exchanged; each rendering on a fresh thread; oracle = byte-identical part of the report
+    {
+        let root = dir.join("orders");
+        let tree = vec![
+            file("Amm.sol", crate::c15::BODY_A.as_bytes()),
+            file("Bank.sol", crate::c15::BODY_B.as_bytes()),
+            Entry::Dir { name: "lib".into(), children: vec![file("Core.sol", crate::c15::BODY_C.as_bytes()), file("Quoter.sol", crate::c15::BODY_E1.as_bytes())] },
+        ];
+        materialise(&root, &tree);
+        let r = root.to_str().unwrap().to_string();
+        fn orders_of(n: usize) -> Vec<Vec<usize>> {
+            let id: Vec<usize> = (0..n).collect();
+            let mut v = vec![id.clone(), id.iter().rev().cloned().collect()];
+            for k in 1..n {
+                v.push((0..n).map(|i| (i + k) % n).collect());
+            }
+            for a in 0..n {
+                for b in (a + 1)..n {
+                    let mut w = id.clone();
+                    w.swap(a, b);
+                    v.push(w);
+                }
+            }
+            v
+        }
+        let mut check = |label: &str, n: usize, render: &(dyn Fn(&[usize]) -> Result<String, String> + Sync)| {
+            // pairs in both orders
+            let mut jobs: Vec<(Vec<usize>, Vec<usize>)> = Vec::new();
+            for a in 0..n {
+                for b in (a + 1)..n {
+                    jobs.push((vec![a, b], vec![b, a]));
+                }
+            }
+            let full = orders_of(n);
+            for o in full.iter().skip(1) {
+                jobs.push((full[0].clone(), o.clone()));
+            }
+            let res = util::par_map(jobs.len(), |j| {
+                let (x, y) = &jobs[j];
+                let rx = std::thread::scope(|sc| sc.spawn(|| render(x)).join().unwrap());
+                let ry = std::thread::scope(|sc| sc.spawn(|| render(y)).join().unwrap());
+                (rx, ry)
+            });
+            for ((x, y), (rx, ry)) in jobs.iter().zip(res) {
+                dl.states += 2;
+                dl.transitions += 2;
+                match (rx, ry) {
+                    (Ok(a), Ok(b)) => {
+                        reports_seen.insert(util::fnv(&a));
+                        if a != b {
+                            dl.violations.push(Violation {
+                                site: format!("directory:{}-report-depends-on-pattern-order", label),
+                                input: format!("tree {} patterns (indices into the documented order) {:?} versus {:?}", describe(&tree), x, y),
+                                expected: "byte-identical rendering for both orders of the configured patterns".into(),
+                                observed: "the two renderings differ".into(),
+                                size: x.len(),
+                                unit_test: String::new(),
+                                extra: json!({"first": a, "other": b}),
+                            });
+                        }
+                    }
+                    (Err(e), _) | (_, Err(e)) => dl.violations.push(Violation { site: "directory:panic".into(), input: format!("patterns {:?} / {:?}", x, y), expected: "returns".into(), observed: e, size: 0, unit_test: String::new(), extra: json!({}) }),
+                }
+            }
+        };
+        let all_o = opt::get_all_optimizations();
+        let all_v = vul::get_all_vulnerabilities();
+        let all_q = qa::get_all_qa();
+        check("optimization", all_o.len(), &|ix| util::guarded(|| solstat::report::optimization_report::generate_optimization_report(opt::analyze_dir(&r, ix.iter().map(|&i| all_o[i]).collect()))));
+        check("vulnerability", all_v.len(), &|ix| util::guarded(|| solstat::report::vulnerability_report::generate_vulnerability_report(vul::analyze_dir(&r, ix.iter().map(|&i| all_v[i]).collect()))));
+        check("qa", all_q.len(), &|ix| util::guarded(|| solstat::report::qa_report::generate_qa_report(qa::analyze_dir(&r, ix.iter().map(|&i| all_q[i]).collect()))));
+    }
     dl.distinct_reports = reports_seen.len() as u64;
     // binary level (sampled): 3 runs on the same directory
     let bin = std::env::var("SOLSTAT_BIN").unwrap_or_default();
